@@ -312,6 +312,9 @@ Definition own_timeout_ok (tr : list xl) : bool := negb (t_bad (fold_left ot_ste
 
 Definition mon06 (tr : list xl) (o : obs) : bool :=
   let sm := summarize tr in
+  (* a call into the package (Publish, Subscribe, Close - also one made from inside a filter or callback) that does
+     not return within 3s: whoever that Publish had not visited yet never gets the message *)
+  negb (o_blocked o) &&
   negb (m_bad sm) && own_timeout_ok tr && implb (o_complete o) (complete_recv sm).
 
 (* OnFiltered exactly once per rejected visited pair of a subscriber with the callback, never otherwise *)
